@@ -183,6 +183,47 @@ def corpus():
                "pad": [4, 2], "ha": 0, "va": 2, "scroll": True, "tty": False, "args": {}})
     cs.append({"api": "old", "style": "block", "term_size": [10, 8], "img": blk, "cells": [4, 2], "force_size": [4, 9],
                "pad": [4, 2], "ha": 0, "va": 2, "scroll": True, "tty": False, "args": {}})
+    cs += size_rule_grid()
+    return cs
+
+
+def size_rule_grid():
+    """The size rules are decision tables: every row of them is exercised on every run.
+    New API: {non-animated, animated renderable} x animate x check_size x allow_scroll x
+    padded height / padded width in {terminal - 1, terminal, terminal + 1}.
+    Old API: {still, animated image} x animate x check_size x scroll x rendered height /
+    rendered width likewise (sizes forced the test-suite's way), pad_height / pad_width at
+    and above the terminal size."""
+    cs = []
+    tw, th = 6, 4
+    for frames in (1, 2):
+        for animate in (True, False):
+            for check_size in (True, False):
+                for allow_scroll in (True, False):
+                    for axis, delta in [("h", -1), ("h", 0), ("h", 1), ("w", -1), ("w", 0), ("w", 1)]:
+                        pad = ({"kind": "exact", "l": 0, "t": 0, "r": 0, "b": th + delta - 1} if axis == "h"
+                               else {"kind": "exact", "l": 0, "t": 0, "r": tw + delta - 2, "b": 0})
+                        cs.append({"api": "new", "term_size": [tw, th], "size": [2, 1], "frames": frames,
+                                   "frame_kind": "text", "seed": frames, "padding": pad, "fill": "space",
+                                   "animate": animate, "loops": 1, "cache": False, "check_size": check_size,
+                                   "allow_scroll": allow_scroll, "tty": False, "grid": True})
+    tw, th = 8, 5
+    for n in (1, 2):
+        img = {"n_frames": n, "size": [2, 2], "seed": n}
+        for animate in (True, False):
+            for check_size in (True, False):
+                for scroll in (True, False):
+                    for axis, delta in [("h", -1), ("h", 0), ("h", 1), ("w", -1), ("w", 0), ("w", 1)]:
+                        size = [2, th + delta] if axis == "h" else [tw + delta, 1]
+                        cs.append({"api": "old", "style": "block", "term_size": [tw, th], "img": img, "cells": [2, 1],
+                                   "force_size": size, "pad": [1, 1], "ha": 0, "va": 0, "animate": animate,
+                                   "repeat": 1, "cached": False, "scroll": scroll, "check_size": check_size,
+                                   "tty": False, "args": {}, "grid": True})
+            # padding size validation: pad_width always, pad_height for animations only
+            for pad in ([tw, 1], [tw + 1, 1], [1, th], [1, th + 1]):
+                cs.append({"api": "old", "style": "block", "term_size": [tw, th], "img": img, "cells": [2, 1],
+                           "pad": pad, "ha": 0, "va": 0, "animate": animate, "repeat": 1, "cached": False,
+                           "check_size": False, "scroll": True, "tty": False, "args": {}, "grid": True})
     return cs
 
 
@@ -306,10 +347,11 @@ def run(ctx):
     t_impl = time.time() - t_start
     terms, owner = [], []
     failures, mismatches, errors = [], [], []
-    hist = {"api": {}, "kind": {}, "style": {}, "tty": {}, "frames": {}, "loops": {}, "raised": 0, "accepted": 0, "cache": {}, "style_args": {}, "kitty": {}}
+    hist = {"api": {}, "kind": {}, "style": {}, "tty": {}, "frames": {}, "loops": {}, "raised": 0, "accepted": 0, "cache": {}, "style_args": {}, "kitty": {}, "size_rule_grid": 0}
     distinct = set()
     for i, (c, r) in enumerate(zip(cases, impl)):
         hist["api"][c["api"]] = hist["api"].get(c["api"], 0) + 1
+        hist["size_rule_grid"] += bool(c.get("grid"))
         if "error" in r:
             failures.append({"signature": core.sig(["raise", failure_class(c, {"size": [0, 0]})]),
                              "what": f"draw() raised {r['error'][:300]} — {describe(c)}", "replay": {"case": c}})
@@ -364,7 +406,10 @@ def run(ctx):
         "corr_name": "Draw.draw_stream / Draw.old_draw_stream (model) == bytes written by Renderable.draw / BaseImage.draw on a pty or StringIO",
         "evaluations": len(cases),
         "distinct_nontrivial": len(distinct),
-        "rule": "corpus (frame counts 1..4 x loops 1..3 x cache on/off x tty/non-tty with an exact bottom-heavy padding; one-line render, "
+        "rule": "corpus (exhaustive size-rule decision tables: new API {non-animated, animated renderable} x animate x check_size x "
+                "allow_scroll x padded height / width in {terminal-1, terminal, terminal+1} (96 cases); old API {still, animated image} x animate x "
+                "check_size x scroll x rendered height / width likewise + pad_width / pad_height at and above the terminal size (112 cases); "
+                "frame counts 1..4 x loops 1..3 x cache on/off x tty/non-tty with an exact bottom-heavy padding; one-line render, "
                 "full-screen box, relative padding with empty fill; rejected width / height / allow_scroll on an animation; old API: one-line "
                 "box, multi-line box, wezterm pre-erase with and without vertical padding, kitty <= 0.25 clearing, kitty animations with a caller-given z_index "
                 "on 4 versions x 4 argument sets, iterm2 whole/mix/compress on 3 terminals, still images, rejected "
